@@ -38,6 +38,8 @@ Inductive case :=
 | CYaxis (shape : list Z) (gshape : option (Z * Z)) (yaxis : option Z) (expect : res (Z * Z))
 | CMetas (shape : list Z) (gshape : option (Z * Z)) (yaxis : option Z) (bs : list blk)
          (expect : res (list meta_obs))
+| CMetasDefault (shape : list Z) (gshape : option (Z * Z)) (yaxis : option Z) (chunks : Z * Z)
+         (expect : res (list meta_obs))
 | CFlat (m : meta) (idx : Z * Z * Z) (expect : res Z)
 | CTidx (m : meta) (expect : list (Z * Z * Z))
 | CTidxOf (m : meta) (s : Z) (expect : res (list (Z * Z * Z)))
@@ -62,6 +64,10 @@ Definition check (c : case) : bool :=
   | CMetas s g ya bs e =>
       res_eqb (list_eqb meta_obs_eqb)
               (match make_metas s g ya bs with Ok mm => Ok (map observe_meta mm) | Err er => Err er end) e
+  | CMetasDefault s g ya ch e =>
+      res_eqb (list_eqb meta_obs_eqb)
+              (match make_metas s g ya (default_blocksize ch) with
+               | Ok mm => Ok (map observe_meta mm) | Err er => Err er end) e
   | CFlat m idx e => res_eqb Z.eqb (flat_tile_idx m idx) e
   | CTidx m e => list_eqb z3_eqb (tidx m) e
   | CTidxOf m s e => res_eqb (list_eqb z3_eqb) (tidx_of m s) e
